@@ -12,6 +12,7 @@
   the Go body. Extension order: lints look extensions up by OID through a map (util.GetExtFromCert /
   IsExtInCert); the two lints that range over c.Extensions themselves are reviewed below.
 -/
+import ZlModel.Names
 import ZlModel.Scan
 import ZlModel.Generated.Registry
 namespace Zl.C17
@@ -141,5 +142,23 @@ theorem extension_rangers_reviewed :
 /-- non-vacuity: the witness of `scan_not_perm` for the NA-then-finding shape -/
 example : scan (fun (n : Nat) => if n == 0 then some Status.na else if n == 1 then some Status.warn else none) Status.pass [0, 1]
     ≠ scan (fun (n : Nat) => if n == 0 then some Status.na else if n == 1 then some Status.warn else none) Status.pass [1, 0] := by decide
+
+
+/-! ## Modelled lints: order independence proved for the rule body itself -/
+section ModelledLints
+open Zl.Names
+
+/-- the eight modelled name lints (ZlModel/Names.lean) return the same verdicts on every permutation of the
+    SAN / IAN name lists -/
+theorem names_verdicts_perm (v v' : View) (hcn : v'.cn = v.cn) (hip : v'.cnIsIP = v.cnIsIP)
+    (hd : v.dns.Perm v'.dns) (hu : v.uris.Perm v'.uris) (hid : v.ianDns.Perm v'.ianDns) (hiu : v.ianUris.Perm v'.ianUris) :
+    verdicts v = verdicts v' := by
+  simp only [verdicts, rfcLabelTooLong, brLabelTooLong, rfcEmptyLabel, brEmptyLabel, sanSpaceDNS, ianSpaceDNS,
+    sanUriNotIA5, ianUriNotIA5, cnJudged, hcn, hip,
+    anyFinding_perm labelTooLong Status.error hd, anyFinding_perm hasEmptyLabel Status.error hd,
+    anyFinding_perm isSpace Status.error hd, anyFinding_perm isSpace Status.error hid,
+    anyFinding_perm notAscii Status.error hu, anyFinding_perm notAscii Status.error hiu]
+
+end ModelledLints
 
 end Zl.C17
